@@ -995,6 +995,17 @@ def extract_batch_merge_body(repo):
     return [ast.unparse(n) for n in ifs[0].body if not isinstance(n, ast.Assert)]
 
 
+def extract_copy_change_attrs_body(repo):
+    """AppMutator._copy_change_attrs: the statements with which a later ChangeField is rolled up into an earlier
+    mutation of the same field - attributes updated, type and initial value taken over when they are SET (`is not
+    None`: 0, '' and False are values)"""
+    tree = ast.parse(_src(repo, 'django_evolution/mutators/app_mutator.py'))
+    cls = _find_class(tree, 'AppMutator')
+    fn = _find_func(cls, '_copy_change_attrs')
+    return [ast.unparse(n).replace('\n', ' ; ') for n in fn.body
+            if not (isinstance(n, ast.Expr) and isinstance(getattr(n, 'value', None), ast.Constant))]
+
+
 def extract_found_reset_per_label(repo):
     """get_app_mutations: the flag that says "an SQL file was found for this label" is set to False INSIDE the loop
     over the labels (once per label), so that a label without an SQL file falls back to its Python module whatever
@@ -1278,6 +1289,10 @@ def regenerate(repo, outdir):
     flags['found_reset_per_label'] = frl
     parts.append('/-- get_app_mutations forgets, for every label, whether an earlier label was shipped as an SQL file -/')
     parts.append('def foundResetPerLabel : Bool := ' + ('true' if frl else 'false'))
+    cca = extract_copy_change_attrs_body(repo)
+    flags['copy_change_attrs_body'] = cca
+    parts.append('/-- AppMutator._copy_change_attrs, statement by statement -/')
+    parts.append('def copyChangeAttrsBody : List String := ' + lean_list(lean_str(x) for x in cca))
     mdf = extract_merge_lists_dest_first(repo)
     flags['merge_lists_dest_first'] = mdf
     parts.append('/-- merge_dicts concatenates lists destination first, recurses into dictionaries, adds missing keys -/')
